@@ -5,6 +5,7 @@ import (
 	"math/rand"
 	"os"
 	"path/filepath"
+	"runtime/debug"
 	"strings"
 	"time"
 
@@ -181,9 +182,16 @@ func metafuzzFile(rep *Report, rng *rand.Rand, b *builtDB, opts bolt.Options) {
 		return
 	}
 	defer f.Close()
+	lastDesc := ""
+	defer inFlight("metafuzz", nil)
 	for i, c := range cases {
 		restore := applyOverlay(f, orig, c.overlay)
-		got, dump := realOpen(b.path, opts)
+		if c.desc != lastDesc {
+			// one in-flight record per damage class and position (a record per case would dominate the run time)
+			lastDesc = c.desc
+			inFlight("metafuzz", map[string]any{"ops": opLines(b.ops), "pageSize": ps, "overlay_first_of_class": c.overlay, "desc": c.desc})
+		}
+		got, dump := realOpenGuarded(b.path, opts)
 		restore()
 		rep.Evaluations++
 		if c.overlay != "-" {
@@ -198,7 +206,6 @@ func metafuzzFile(rep *Report, rng *rand.Rand, b *builtDB, opts bolt.Options) {
 			rep.Disagree++
 			rep.violation("C11", "correspondence", "open-vs-model", fmt.Sprintf("%s: real Open gives %q, model openMeta gives %q", c.desc, got, want),
 				map[string]any{"ops": opLines(b.ops), "pageSize": ps, "overlay": c.overlay})
-			continue
 		}
 		// monitor openPresents: the content equals the state of the surviving meta
 		if strings.HasPrefix(got, "ok") {
@@ -218,8 +225,8 @@ func metafuzzFile(rep *Report, rng *rand.Rand, b *builtDB, opts bolt.Options) {
 			rep.violation("C11", "monitor", "one-damaged-rejected", fmt.Sprintf("%s: Open failed (%s) although one meta is intact", c.desc, got),
 				map[string]any{"ops": opLines(b.ops), "pageSize": ps, "overlay": c.overlay})
 		}
-		if strings.HasPrefix(got, "panic") {
-			rep.violation("C11", "monitor", "open-panics", c.desc+": "+got, map[string]any{"ops": opLines(b.ops), "pageSize": ps, "overlay": c.overlay})
+		if strings.HasPrefix(got, "panic") || got == "timeout" {
+			rep.violation("C11", "monitor", "open-panics", c.desc+": "+truncate(got, 200), map[string]any{"ops": opLines(b.ops), "pageSize": ps, "overlay": c.overlay})
 		}
 	}
 	// truncated / non-database files: error, never panic or data
@@ -309,9 +316,10 @@ func applyOverlay(f *os.File, orig []byte, overlay string) (restore func()) {
 func realOpen(path string, opts bolt.Options, noDump ...bool) (res string, dump string) {
 	defer func() {
 		if r := recover(); r != nil {
-			res = "panic:" + fmt.Sprint(r)
+			res = "panic:" + strings.ReplaceAll(fmt.Sprint(r), " ", "_")
 		}
 	}()
+	debug.SetPanicOnFault(true)
 	o := opts
 	o.ReadOnly = true
 	o.Timeout = time.Second
@@ -325,4 +333,20 @@ func realOpen(path string, opts bolt.Options, noDump ...bool) (res string, dump 
 		dump = dumpDB(db)
 	}
 	return fmt.Sprintf("ok %d %d %d %d", db.VerifPageSize(), txid, root, pgid), dump
+}
+
+// realOpenGuarded runs realOpen under a deadline (a damaged meta must not make Open hang).
+func realOpenGuarded(path string, opts bolt.Options) (string, string) {
+	type r struct{ a, b string }
+	ch := make(chan r, 1)
+	go func() {
+		a, b := realOpen(path, opts)
+		ch <- r{a, b}
+	}()
+	select {
+	case x := <-ch:
+		return x.a, x.b
+	case <-time.After(15 * time.Second):
+		return "timeout", ""
+	}
 }
